@@ -29,16 +29,21 @@ CFG = {
                       "(public API, real signatures, harness-controlled EngineInterface) agrees with the model on every "
                       "generated operation, and the property monitors find no violation on the implementation.",
         "level_note": "Proved for the model, tied to the code by the differential run (not by translation) except "
-                      "CACHE_CAPACITY. Partial / assumed: (1) tokio scheduling is not modelled — the harness runs the "
-                      "real tasks to quiescence on a single-threaded runtime, the theorems cover every order of the "
-                      "critical sections; cases with racing conflicting requests compare only order-independent "
-                      "observables; (2) availability is per incarnation: blocks queued but not durable are lost by a "
-                      "restart, as the code intends (save_block waits for persistence); (3) the `number == requested` "
-                      "guard of gossip/runner.rs and the queue_block + wait_until_persisted sequence of "
-                      "bft/.../block.rs are transcribed in the harness (no network / replica is run), so a change "
-                      "there is not seen by K; (4) static genesis schedule only — the epoch-update task "
-                      "(manager.rs:504-612) is not modelled; (5) block numbers below u64::MAX (BlockNumber::next "
-                      "panics on overflow); (6) durable storage itself is the harness's stub (in_memory::Engine rules).",
+                      "CACHE_CAPACITY. Partial / assumed: (1) tokio scheduling is not modelled — the sequential families "
+                      "run the real tasks to quiescence on a single-threaded runtime after every op, the `mt` family "
+                      "runs 8 submitter tasks + a side channel in parallel on a multi-threaded runtime and compares the "
+                      "(order-independent) final state; the theorems cover every order of the critical sections; cases "
+                      "with racing conflicting requests compare only order-independent observables (identity is "
+                      "checked by the append-only monitor); (2) availability is per incarnation: blocks queued but not "
+                      "durable are lost by a restart, as the code intends (save_block waits for persistence); (3) the "
+                      "`number == requested` guard of gossip/runner.rs is exercised through the real gossip network "
+                      "(two real nodes over loopback TCP, the remote one with a lying storage) in the `net` family and "
+                      "transcribed in the harness for the sequential families; the queue_block + "
+                      "wait_until_persisted sequence of bft/.../block.rs (save_block) is transcribed in the harness — "
+                      "no replica is run, so a change inside save_block is not seen by K; (4) static genesis schedule "
+                      "only — the epoch-update task (manager.rs:504-612) is not modelled; (5) block numbers below "
+                      "u64::MAX (BlockNumber::next panics on overflow); (6) durable storage itself is the harness's "
+                      "stub (in_memory::Engine rules).",
         "harness": "c08",
         "n": {"quick": 7000, "thorough": 250000},
         "timeout": {"quick": 900, "thorough": 7200},
@@ -48,8 +53,9 @@ CFG = {
                 "around genesis.first_block, storage lag beyond CACHE_CAPACITY, the capacity boundary "
                 "(cap-1/cap/cap+1 with the durable head before/at/after the cache front), side-channel overtaking with "
                 "requests parked on both sides, pruning, regressing / ill-formed / dishonest reports, restarts, hand-off "
-                "failure, cancellation, peer responses with a wrong number, racing conflicting requests — plus random "
-                "mixes; an op is non-trivial if its observation class differs from the modal one; distinct = distinct "
+                "failure, cancellation, peer responses with a wrong number (transcribed guard, and `net`: real gossip "
+                "network with a lying peer), racing conflicting requests, `mt`: concurrent submitters on a multi-threaded "
+                "runtime — plus random mixes; an op is non-trivial if its observation class differs from the modal one; distinct = distinct "
                 "op lines",
         "trusted": ["the hand transcription of block_store.rs / manager.rs into Model/Store.lean (checked by the "
                     "differential run on every check)", "tokio watch / task semantics (run, not modelled)",
